@@ -275,6 +275,20 @@ fn durable_checkpoint(req: &Value) -> Value {
 /// C11 D1: a second durable write of the same key is started between the first one's log append and its in-memory apply
 /// (schedule hook); afterwards the value readers see must be the value a restart recovers from the log.
 fn durable_order(req: &Value) -> Value {
+    // schedules that depend on which thread wins a lock hand-over are tried several times; one reproduction is enough
+    let attempts = req["attempts"].as_u64().unwrap_or(1).max(1);
+    let mut last = json!({});
+    for i in 0..attempts {
+        last = durable_order_once(req);
+        if last["violates"] == json!(true) {
+            last["attempt"] = json!(i + 1);
+            return last;
+        }
+    }
+    last
+}
+
+fn durable_order_once(req: &Value) -> Value {
     use std::sync::{mpsc, Arc, Mutex};
     use tensor_store::{TensorData, TensorStore, TensorValue, ScalarValue};
     let dir = tmpdir();
@@ -282,8 +296,14 @@ fn durable_order(req: &Value) -> Value {
     let key = match req["key_class"].as_str().unwrap_or("Metadata") {
         "Embedding" => "emb:k1", "Graph" => "node:k1", "Table" => "table:k1", _ => "k1",
     };
-    let val = |i: i64| { let mut d = TensorData::new(); d.set("v", TensorValue::Scalar(ScalarValue::Int(i))); d };
-    let read = |s: &TensorStore| s.get(key).ok().and_then(|t| match t.get("v") { Some(TensorValue::Scalar(ScalarValue::Int(i))) => Some(*i), _ => None });
+    let with_emb = req["embedding"].as_bool().unwrap_or(false);
+    let val = |i: i64| { let mut d = TensorData::new(); d.set("v", TensorValue::Scalar(ScalarValue::Int(i))); if with_emb { d.set("_embedding", TensorValue::Vector(vec![i as f32, 0.5])); } d };
+    // the value readers see: the scalar field and, for embedding keys, the first component of the vector (both carry the writer's number)
+    let read = |s: &TensorStore| s.get(key).ok().and_then(|t| {
+        let v = match t.get("v") { Some(TensorValue::Scalar(ScalarValue::Int(i))) => Some(*i), _ => None }?;
+        let e = match t.get("_embedding") { Some(TensorValue::Vector(x)) => x.first().map(|f| *f as i64), Some(TensorValue::Sparse(x)) => x.to_dense().first().map(|f| *f as i64), _ => None };
+        Some(v * 1000 + e.unwrap_or(0))
+    });
     let store = match TensorStore::open_durable(&path, WalConfig::default()) { Ok(s) => s, Err(e) => return json!({"error": e.to_string()}) };
     if !req["fresh_key"].as_bool().unwrap_or(false) {
         let _ = store.put_durable(key, val(0));
@@ -306,7 +326,7 @@ fn durable_order(req: &Value) -> Value {
             let mut d = TensorData::new();
             d.set("v", TensorValue::Scalar(ScalarValue::Int(2)));
             if with_embedding {
-                d.set("_embedding", TensorValue::Vector(vec![1.0, 2.0]));
+                d.set("_embedding", TensorValue::Vector(vec![2.0, 0.5]));
             }
             let r = s3.put_durable(k3, d).is_ok();
             let _ = tx.send(());
@@ -373,6 +393,86 @@ fn checkpoint_race(req: &Value) -> Value {
            "violates": cp && acked == Some(true) && seen && !recovered})
 }
 
+/// C11: several threads write one embedding key durably at the same time; after they are done, what readers see must be what a
+/// restart recovers.  Used when a counterexample's window has no schedule point in the code under test: rounds are repeated
+/// until one shows the disagreement (a probabilistic confirmation, reported as such).
+fn durable_stress(req: &Value) -> Value {
+    use std::sync::{Arc, Barrier};
+    use tensor_store::{TensorData, TensorStore, TensorValue, ScalarValue};
+    let rounds = req["rounds"].as_u64().unwrap_or(100);
+    let (threads, puts) = (req["threads"].as_u64().unwrap_or(4) as usize, req["puts"].as_u64().unwrap_or(6) as i64);
+    let key = "emb:hot";
+    let read = |s: &TensorStore| s.get(key).ok().map(|t| {
+        let v = match t.get("v") { Some(TensorValue::Scalar(ScalarValue::Int(i))) => *i, _ => -1 };
+        let e = match t.get("_embedding") { Some(TensorValue::Vector(x)) => x.first().map_or(-1, |f| *f as i64), Some(TensorValue::Sparse(x)) => x.to_dense().first().map_or(-1, |f| *f as i64), _ => -1 };
+        (v, e)
+    });
+    for round in 0..rounds {
+        let dir = tmpdir();
+        let path = dir.join("stress.wal");
+        let store = match TensorStore::open_durable(&path, WalConfig::default()) { Ok(s) => s, Err(e) => return json!({"error": e.to_string()}) };
+        let barrier = Arc::new(Barrier::new(threads));
+        let hs: Vec<_> = (0..threads).map(|t| {
+            let (s, b) = (store.clone(), barrier.clone());
+            std::thread::spawn(move || {
+                b.wait();
+                for i in 0..puts {
+                    let n = (t as i64 + 1) * 1000 + i;
+                    let mut d = TensorData::new();
+                    d.set("v", TensorValue::Scalar(ScalarValue::Int(n)));
+                    d.set("_embedding", TensorValue::Vector(vec![n as f32, 0.5]));
+                    let _ = s.put_durable(key, d);
+                }
+            })
+        }).collect();
+        for h in hs { let _ = h.join(); }
+        let mem = read(&store);
+        drop(store);
+        let rec = TensorStore::recover(&path, &WalConfig::default(), None).ok().and_then(|s| read(&s));
+        let _ = std::fs::remove_dir_all(&dir);
+        if mem != rec || mem.map_or(false, |(v, e)| v != e) {
+            return json!({"round": round + 1, "readers_last_saw": mem, "recovered_after_restart": rec, "violates": true});
+        }
+    }
+    json!({"rounds": rounds, "violates": false})
+}
+
+/// C11 D4, single-threaded: the schedule hook fires right before a durable write is applied in memory; if the log file is longer
+/// when the call returns than it was at that moment, a record of this write was logged after it took effect.  A second durable
+/// write of the same key that runs in that gap is then logged before that record although it was applied later.
+fn durable_log_growth(req: &Value) -> Value {
+    use std::sync::Arc;
+    use std::sync::atomic::{AtomicU64, Ordering};
+    use tensor_store::{TensorData, TensorStore, TensorValue, ScalarValue};
+    let dir = tmpdir();
+    let path = dir.join("growth.wal");
+    let store = match TensorStore::open_durable(&path, WalConfig::default()) { Ok(s) => s, Err(e) => return json!({"error": e.to_string()}) };
+    let at_apply = Arc::new(AtomicU64::new(u64::MAX));
+    let (p2, a2) = (path.clone(), at_apply.clone());
+    *tensor_store::slab_router::VERIF_DURABLE_WINDOW.write().unwrap() = Some(Arc::new(move |k: &str| {
+        if k == "emb:k1" {
+            a2.store(std::fs::metadata(&p2).map(|m| m.len()).unwrap_or(0), Ordering::SeqCst);
+        }
+    }));
+    let mut d = TensorData::new();
+    d.set("v", TensorValue::Scalar(ScalarValue::Int(1)));
+    d.set("_embedding", TensorValue::Vector(vec![1.0, 0.5]));
+    let ok = if req["router_op"].as_str() == Some("delete_durable") {
+        let _ = store.put_durable("emb:k1", d);
+        at_apply.store(u64::MAX, Ordering::SeqCst);
+        store.delete_durable("emb:k1").is_ok()
+    } else {
+        store.put_durable("emb:k1", d).is_ok()
+    };
+    *tensor_store::slab_router::VERIF_DURABLE_WINDOW.write().unwrap() = None;
+    let at_return = std::fs::metadata(&path).map(|m| m.len()).unwrap_or(0);
+    drop(store);
+    let tail_kind = TensorWal::open(&path, WalConfig::default()).ok().and_then(|w| w.replay().ok()).and_then(|es| es.last().map(|e| format!("{e:?}").chars().take(24).collect::<String>()));
+    let _ = std::fs::remove_dir_all(&dir);
+    let a = at_apply.load(Ordering::SeqCst);
+    json!({"ok": ok, "log_bytes_when_apply_started": a, "log_bytes_at_return": at_return, "last_record": tail_kind, "violates": ok && a != u64::MAX && at_return > a})
+}
+
 /// W5: r1, cut inside it, reopen, append r2, cut inside it, reopen, append r3, restart; which records the final replay has.
 macro_rules! double_crash {
     ($name:ident, $open:expr, $rec:expr) => {
@@ -416,6 +516,8 @@ pub fn handle(op: &str, req: &Value) -> Option<Value> {
     Some(match op {
         "durable_op" => durable_op(req),
         "durable_order" => durable_order(req),
+        "durable_stress" => durable_stress(req),
+        "durable_log_growth" => durable_log_growth(req),
         "checkpoint_race" => checkpoint_race(req),
         "durable_checkpoint" => durable_checkpoint(req),
         "durable_rotation" => {
